@@ -236,6 +236,30 @@ def run_check(prop, tier):
               % (prop, total.divergences, total.rechecks))
         return 2
 
+    # ---- regression replays: every recorded counterexample of a defect that has since been repaired (regress/<ID>-*.json,
+    # collected by tools/fix_regress.py from the parents of the fix: commits) is re-executed on this tree without the explorer
+    import glob
+    reg_total = reg_stale = 0
+    for path in sorted(glob.glob(os.path.join(VERIF, 'regress', prop + '-*.json'))):
+        try:
+            with open(path) as f:
+                obj = json.load(f)
+            rr = mod.replay(obj['replay'])
+        except Exception:
+            reg_stale += 1
+            sys.stderr.write("stale regression replay %s\n%s\n" % (path, traceback.format_exc(limit=2)))
+            continue
+        reg_total += 1
+        total.evaluations += 1
+        for v in rr['violations']:
+            total.viol_count += 1
+            if v['signature'] not in total.violations:
+                total.violations[v['signature']] = dict(signature=v['signature'], what=v['what'], replay=obj['replay'], cost=-1,
+                                                        count=1, detail='regression replay %s' % os.path.basename(path))
+    total.notes['regression_replays'] = reg_total
+    if reg_stale:
+        total.notes['regression_replays_stale'] = reg_stale
+
     # ---- violations: determinism of each, known findings, replay files
     known = load_known()
     known_hit = []
